@@ -489,6 +489,8 @@ def run_check(prop: str, fn: CheckFn, repo: str, tier: str, evidence_dir: Option
         for f in new:
             print("  violation: %s  at %s in %s\n      construct: %s\n      reason: %s"
                   % (f.key, f.where, f.func, f.construct, f.reason))
+        if err is not None:
+            print("ANALYSIS-ERROR property=%s (in addition to the violations above) %s" % (prop, err))
         print("VIOLATION property=%s replay=%s" % (prop, vpath))
         return 1
     else:
